@@ -83,16 +83,42 @@ Definition attr_type_supported (g : gotype) : bool :=
   | _ => false
   end.
 
+Definition is_res_tag (api : str) : bool :=
+  String.eqb api "attr" || String.eqb api "rel" || String.prefix "rel," api.
+
+Definition is_id_field (f : sfield) : bool := String.eqb (sf_name f) "ID".
+
+(** names of the tagged fields must be non-empty, exported, distinct and not "id" *)
+Fixpoint names_ok (fs : list sfield) (seen : list str) : bool :=
+  match fs with
+  | [] => true
+  | f :: rest =>
+      if negb (is_id_field f) && is_res_tag (sf_api f) then
+        negb (String.eqb (sf_json f) "") && sf_exported f && negb (mem_str (sf_json f) seen)
+        && names_ok rest (sf_json f :: seen)
+      else names_ok rest seen
+  end.
+
+Definition tagged_names (d : structdesc) : list str :=
+  "id" :: map sf_json (filter (fun f => negb (is_id_field f) && is_res_tag (sf_api f)) d).
+
 Definition check_struct (d : structdesc) : bool :=
-  match find_field (fun f => String.eqb (sf_name f) "ID") d with
+  match find_field is_id_field d with
   | None => false
   | Some idf =>
       negb (String.eqb (sf_api idf) "")
+      && (match sf_type idf with GTAttr 1 false => true | _ => false end)
+      && String.eqb (sf_json idf) "id"
+      && names_ok d ["id"]
+      && forallb (fun f => if is_id_field f || is_res_tag (sf_api f) then true
+                           else String.eqb (sf_json f) "" || negb (mem_str (sf_json f) (tagged_names d))) d
       && forallb (fun f => if String.eqb (sf_api f) "attr" then attr_type_supported (sf_type f) else true) d
       && forallb (fun f =>
-                    if String.prefix "rel," (sf_api f) then
-                      let n := length (split_comma (sf_api f)) in
+                    if String.eqb (sf_api f) "rel" || String.prefix "rel," (sf_api f) then
+                      let parts := split_comma (sf_api f) in
+                      let n := length parts in
                       (Nat.leb 2 n && Nat.leb n 3)
+                      && negb (String.eqb (nth 1 parts "") "")
                       && match sf_type f with
                          | GTAttr 1 false => true
                          | GTStrs => true
@@ -101,6 +127,7 @@ Definition check_struct (d : structdesc) : bool :=
                     else true) d
   end.
 
+(** BuildType's error/ok and the type it returns (NewFunc aside) *)
 Definition build_attrs (d : structdesc) : list (str * attr) :=
   fold_left (fun m f =>
                if String.eqb (sf_api f) "attr" then
@@ -110,27 +137,27 @@ Definition build_attrs (d : structdesc) : list (str * attr) :=
 
 (** Relationship map; [None] when a tag "rel" has no target ([relTag[1]]
     indexes out of range: panic). *)
+Definition rels_step (typ : str) (acc : option (list (str * rel))) (f : sfield) : option (list (str * rel)) :=
+  match acc with
+  | None => None
+  | Some m =>
+      match split_comma (sf_api f) with
+      | hd :: tl =>
+          if String.eqb hd "rel" then
+            match tl with
+            | [] => None
+            | target :: tl2 =>
+                let inv := match tl2 with [x] => x | _ => "" end in
+                let to1 := negb (String.eqb (go_type_string (sf_type f)) "[]string") in
+                Some (map_set (sf_json f) (mkRel typ (sf_json f) to1 target inv false) m)
+            end
+          else Some m
+      | [] => Some m
+      end
+  end.
+
 Definition build_rels (typ : str) (d : structdesc) : option (list (str * rel)) :=
-  fold_left (fun acc f =>
-               match acc with
-               | None => None
-               | Some m =>
-                   let tag := split_comma (sf_api f) in
-                   match tag with
-                   | hd :: tl =>
-                       if String.eqb hd "rel" then
-                         match tl with
-                         | [] => None
-                         | target :: tl2 =>
-                             let inv := match tl2 with [x] => x | _ => "" end in
-                             let to1 := negb (String.eqb (go_type_string (sf_type f)) "[]string") in
-                             Some (map_set (sf_json f)
-                                     (mkRel typ (sf_json f) to1 target inv false) m)
-                         end
-                       else Some m
-                   | [] => Some m
-                   end
-               end) d (Some []).
+  fold_left (rels_step typ) d (Some []).
 
 (** Wrap: panics when Check fails or a relationship tag has no target. *)
 Definition wrap (d : structdesc) (vals : list value) : res wrapper :=
@@ -140,6 +167,15 @@ Definition wrap (d : structdesc) (vals : list value) : res wrapper :=
     match build_rels typ d with
     | None => Panic
     | Some rels => Ok (mkWrapper d vals typ (build_attrs d) rels)
+    end.
+
+Definition build_type (d : structdesc) : res type :=
+  if negb (check_struct d) then Err
+  else
+    let typ := struct_type_name d in
+    match build_rels typ d with
+    | None => Panic
+    | Some rels => Ok (mkType typ (build_attrs d) rels)
     end.
 
 Definition zero_vals (d : structdesc) : list value := map (fun f => go_zero (sf_type f)) d.
